@@ -379,7 +379,7 @@ func init() {
 				"diffCmd.Execute/io/ioutil.ReadFile":                    "documented: an unreadable current file is treated as empty",
 				"diffCmd.Execute/os.ReadFile":                           "documented: an unreadable current file is treated as empty",
 				"main/github.com/google/subcommands.Execute":            "not an error result",
-				"genCmd.Execute/" + pathW + ".GenerateResult.Commit":     "",
+				"genCmd.Execute/" + pathW + ".GenerateResult.Commit":    "",
 				"objectCache.get/" + pathW + ".objectCache.processExpr": "",
 			}
 			_ = exceptions["x"]
